@@ -416,8 +416,9 @@ static void fam_doc()
 						}
 						if (di != 0 && !(TH && di == 2 && type == 1))
 							continue;
-						if (!TH && !(h == 8 || h == 10 || h == 2))
-							continue;   // quick tier: tamper loops for SHA-256, SHA-512, SHA-1 cells only
+						// quick tier: tamper loops for SHA-256 cells of every algorithm, SHA-512 and SHA-1 cells of RSA and EdDSA only
+						if (!TH && !(h == 8 || ((h == 10 || h == 2) && (s.algo == TMCG_OPENPGP_PKALGO_RSA || s.algo == TMCG_OPENPGP_PKALGO_EDDSA))))
+							continue;
 						// tampering: signature packet, document, key packet
 						tamper_sigpkt(pkt, s.pub->key, t, cid, "doc");
 						tamper_object(doc, pkt, s.pub->key, t, [](Target &x, const octets &m) { x.data = m; }, type == 1, cid, "document");
